@@ -354,9 +354,8 @@ def boundsForRow (lo : QOpts) (c : Clause) (r : Row) : Except QErr QOpts :=
 /-- `compatibleRows`. -/
 def compatibleRows (r nr : Row) : Bool := nr.all fun (k, v) => match r.get k with | some ov => sameCell ov v | none => true
 
-/-- `addSpecifiedData`: specialise the clause with one row and fetch. Returns the rows that replace it. -/
-def addSpecifiedData (F : Facts) (gs : List QGraph) (r : Row) (c : Clause) (lo : QOpts) (stmLimit : Int) :
-    Except QErr (List Row) := do
+/-- First half of `addSpecifiedData`: fix the clause's open positions from the row's values. -/
+def specialise (r : Row) (c : Clause) (lo : QOpts) : Except QErr (Clause × QOpts) := do
   let c := if c.s.isNone then
       match boundValue r [c.sBinding, c.sAlias] with
       | some (.node n) => { c with s := some n }
@@ -379,18 +378,39 @@ def addSpecifiedData (F : Facts) (gs : List QGraph) (r : Row) (c : Clause) (lo :
       | some (.time t) => { c with o := some (.pred (.tmp c.oID t)) }
       | _ => c
     else c
-  let (c, lo) ← if c.o.isNone then do
+  if c.o.isNone then do
       let c := match (boundValue r [c.oBinding, c.oAlias]).bind cellToObj with
         | some o => { c with o := some o }
         | none => c
       let lo ← boundsForRow lo c r
       pure (c, lo)
     else pure (c, lo)
-  let rows ← simpleFetch F gs c lo stmLimit
-  let rows := rows.filter (compatibleRows r)
-  if rows.isEmpty && c.optional then
-    pure [r.merge ((c.bindings.filter (fun k => !r.has k)).map fun k => (k, Cell.null))]
-  else pure (rows.map fun nr => r.merge nr)
+
+/-- Second half: join the row with the fetched rows that agree with it; an OPTIONAL clause without
+    such rows keeps the row with its new bindings unset. -/
+def joinRow (r : Row) (optional : Bool) (newBindings : List Bytes) (fetched : List Row) : List Row :=
+  let rows := fetched.filter (compatibleRows r)
+  if rows.isEmpty && optional then
+    [r.merge ((newBindings.filter (fun k => !r.has k)).map fun k => (k, Cell.null))]
+  else rows.map fun nr => r.merge nr
+
+/-- `addSpecifiedData`: specialise the clause with one row and fetch. Returns the rows that replace it. -/
+def addSpecifiedData (F : Facts) (gs : List QGraph) (r : Row) (c : Clause) (lo : QOpts) (stmLimit : Int) :
+    Except QErr (List Row) := do
+  let (c', lo') ← specialise r c lo
+  let rows ← simpleFetch F gs c' lo' stmLimit
+  pure (joinRow r c.optional c'.bindings rows)
+
+/-- `specifyClauseWithTable`: every row is replaced by its specialised fetches. -/
+def specifyAll (F : Facts) (gs : List QGraph) (c : Clause) (lo : QOpts) (stmLimit : Int) : List Row → Except QErr (List Row)
+  | [] => .ok []
+  | r :: rs =>
+    match addSpecifiedData F gs r c lo stmLimit with
+    | .error e => .error e
+    | .ok a =>
+      match specifyAll F gs c lo stmLimit rs with
+      | .error e => .error e
+      | .ok b => .ok (a ++ b)
 
 /-- `processClause`: returns the new table and whether the pattern became unresolvable. -/
 def processClause (F : Facts) (gs : List QGraph) (tbl : Tbl) (c : Clause) (lo : QOpts) (stmLimit : Int) :
@@ -420,8 +440,8 @@ def processClause (F : Facts) (gs : List QGraph) (tbl : Tbl) (c : Clause) (lo : 
       else do pure (← tbl.append c.bindings rows, false)
     else do
       -- specifyClauseWithTable: every row is replaced by its specialised fetches
-      let rowss ← tbl.rows.mapM fun r => addSpecifiedData F gs r c lo stmLimit
-      let t : Tbl := { bindings := tbl.bindings, rows := rowss.flatten }
+      let rows ← specifyAll F gs c lo stmLimit tbl.rows
+      let t : Tbl := { bindings := tbl.bindings, rows := rows }
       pure (if tbl.rows.isEmpty then t else t.addBindings c.bindings, false)
 
 /-- `processGraphPattern`. -/
